@@ -341,6 +341,9 @@ func runCheck(id, tier string, seed uint64, workers, runs, ms int, replay, work 
 	os.MkdirAll(filepath.Join(verifDir, "evidence"), 0o755)
 
 	if replay != "" {
+		if abs, err := filepath.Abs(replay); err == nil {
+			replay = abs
+		}
 		cmd := exec.Command(bin, "-test.run", "^TestWorker$", "-test.timeout", "0", "-test.cpu", "1")
 		cmd.Dir = work
 		resPath := filepath.Join(work, "replay.json")
@@ -584,6 +587,10 @@ func runCheck(id, tier string, seed uint64, workers, runs, ms int, replay, work 
 	if m != nil {
 		ruleText, real, stubs, assumptions, faultKinds = m.Rule, m.Real, m.Stubs, m.Assumptions, m.FaultKinds
 	}
+	if assumptions == nil {
+		assumptions = []string{}
+	}
+	assumptions = append(assumptions, "sampling (seeded search), not enumeration: a clean batch is evidence, not proof", "the instrumented scratch copy differs from the shipped tree only by inserted inert scheduling-point calls and one generated accessor file")
 	if len(samples) == 0 {
 		samples = append(samples, json.RawMessage(`{"note":"no non-trivial run was sampled"}`))
 	}
